@@ -506,29 +506,126 @@ def subview_pointer(repo: Repo, chk: Check) -> None:
     )
     f, fl = flow_of(repo, chk, M2A, "LowerExtractAlignedPointerOp.match_and_rewrite")
     key = f.key
-    # every use of a layout dimension `<layout>.tstrides[i]` inside the loop over the dynamic offsets
+    # the loop that builds one pointer term per (offset, dimension) pair: the one that divides an offset by a tile size
+    divs0 = [s for s in fl.calls("DivUIOp") if s.reachable and any(isinstance(l, ast.For) for l in s.loops)]
+    if not divs0:
+        raise AnalysisError(f"{f.where}: no DivUIOp inside a loop over the subview's offsets")
+    loop = [l for l in divs0[0].loops if isinstance(l, ast.For)][-1]
+    lsite = next((x for x in fl.stmts(ast.For) if x.node is loop), None)
+    if lsite is None or not (isinstance(loop.target, ast.Tuple) and len(loop.target.elts) == 2 and all(isinstance(e, ast.Name) for e in loop.target.elts)):
+        raise AnalysisError(f"{f.where}: the loop over (offset, dimension) pairs is not recognised: `for {ast.unparse(loop.target)} in {ast.unparse(loop.iter)[:60]}`")
+    off_v, dim_v = (e.id for e in loop.target.elts)  # type: ignore[attr-defined]
+
+    def _dynamic_positions(e: ast.expr, site: Site) -> bool:
+        cone = fl.cone(e, site, inline=0)
+        return depends_on(cone, "$_ == DYNAMIC_INDEX", "$_ != DYNAMIC_INDEX", "$_ is DYNAMIC_INDEX", "$_ == memref.DYNAMIC_INDEX", "$_ == builtin.DYNAMIC_INDEX") and norm.contains(
+            cone, T("$v.static_offsets"))
+
+    # where the pairs come from
+    sources: list[tuple[str, bool, str, str]] = []  # (kind, ok, where, detail)
+    it = loop.iter
+    pair_list = it.id if isinstance(it, ast.Name) else None
+    zips: list[tuple[ast.Call, Site]] = []
     n = 0
-    dims: list[ast.expr] = []
+    if pair_list is None:
+        zips = [(c, lsite) for c in ast.walk(it) if isinstance(c, ast.Call) and callee_name(c) == "zip"]
+    else:
+        for st in fl.stmts(ast.Assign, ast.AnnAssign):
+            tgt = st.node.targets[0] if isinstance(st.node, ast.Assign) else st.node.target
+            if st.reachable and isinstance(tgt, ast.Name) and tgt.id == pair_list and st.node.value is not None:
+                zs = [c for c in ast.walk(st.node.value) if isinstance(c, ast.Call) and callee_name(c) == "zip"]
+                v0 = st.node.value
+                if not zs and isinstance(v0, ast.ListComp) and len(v0.generators) == 1 and isinstance(v0.elt, ast.Tuple) and len(v0.elt.elts) == 2 and isinstance(v0.elt.elts[1], ast.Name):
+                    # [(offset, dim) for dim, offset in enumerate(<operands>)]: the dimension is the position in the operand list
+                    g0 = v0.generators[0]
+                    me = norm.match(T("enumerate($s)"), g0.iter)
+                    if me is not None and isinstance(g0.target, ast.Tuple) and len(g0.target.elts) == 2 and isinstance(g0.target.elts[0], ast.Name) \
+                            and g0.target.elts[0].id == v0.elt.elts[1].id and norm.match(T("$v.offsets"), norm.primary(st.expand(me["s"]))) is not None:
+                        n += 1
+                        chk.bad("C10.subview-pointer", f"{key}:dimension-of-operand#{n}", st.where(),
+                                f"the dimension paired with a dynamic offset operand is its position in the operand list (`{ast.unparse(v0)[:80]}`), not the position of the DYNAMIC "
+                                "entry of static_offsets it belongs to: with a static offset in front of a dynamic one the operand is scaled with another dimension's step and tile size")
+                        continue
+                if not zs and not (isinstance(st.node.value, ast.List) and not st.node.value.elts):
+                    raise AnalysisError(f"{st.where()}: the list of (offset, dimension) pairs is initialised from `{ast.unparse(st.node.value)[:80]}`, which is not recognised")
+                zips += [(c, st) for c in zs]
+    for c, st in zips:
+        if len(c.args) != 2:
+            raise AnalysisError(f"{st.where()}: `{ast.unparse(c)[:80]}` does not pair offsets with dimensions")
+        n += 1
+        is_ops = norm.match(T("$v.offsets"), norm.primary(st.expand(c.args[0]))) is not None
+        dyn = _dynamic_positions(c.args[1], st)
+        chk.result(is_ops and dyn, "C10.subview-pointer", f"{key}:dimension-of-operand#{n}", st.where(),
+                   "the k-th dynamic offset operand is paired with the position of the k-th DYNAMIC entry of static_offsets",
+                   f"the dimension `{ast.unparse(c.args[1])[:60]}` paired with a dynamic offset operand does not come from the positions of the DYNAMIC entries of "
+                   "static_offsets: with a static offset in front of a dynamic one the operand is scaled with another dimension's step and tile size")
+    static_ok = None
+    if pair_list is not None:
+        for ap in fl.calls("append"):
+            if not ap.reachable or ast.unparse(ap.node.func.value) != pair_list or not ap.node.args:  # type: ignore[attr-defined]
+                continue
+            pr = ap.node.args[0]
+            en = [l for l in ap.loops if isinstance(l, ast.For) and norm.match(T("enumerate($s)"), l.iter) is not None and isinstance(l.target, ast.Tuple) and len(l.target.elts) == 2]
+            if not (isinstance(pr, ast.Tuple) and len(pr.elts) == 2 and en):
+                raise AnalysisError(f"{ap.where()}: `{ast.unparse(ap.node)[:80]}` adds an (offset, dimension) pair in a form that is not recognised")
+            iv, sv = (e.id for e in en[-1].target.elts)  # type: ignore[attr-defined]
+            over_static = norm.contains(fl.cone(en[-1].iter, ap, inline=0), T("$v.static_offsets"))
+            val = fl.cone(pr.elts[0], ap, inline=0)
+            same_dim = isinstance(pr.elts[1], ast.Name) and pr.elts[1].id == iv
+            is_const = any(isinstance(c_, ast.Call) and callee_name(c_) in ("from_int_and_width", "ConstantOp") and sv in norm.free_names(c_) for c_ in ast.walk(val))
+            # which static entries are skipped: only the DYNAMIC marker and zero
+            conds = [fa.expr for fa in ap.facts if fa.kind == "atom" and sv in norm.free_names(fa.expr)]
+            allowed = all(norm.any_match([f"{sv} != DYNAMIC_INDEX", f"{sv} != 0", f"{sv} is not DYNAMIC_INDEX", f"{sv} != memref.DYNAMIC_INDEX", f"{sv} != builtin.DYNAMIC_INDEX"], c_) is not None for c_ in conds)
+            not_dyn = any(norm.any_match([f"{sv} != DYNAMIC_INDEX", f"{sv} is not DYNAMIC_INDEX", f"{sv} != memref.DYNAMIC_INDEX", f"{sv} != builtin.DYNAMIC_INDEX"], c_) is not None for c_ in conds)
+            n += 1
+            static_ok = over_static and same_dim and is_const and allowed and not_dyn
+            chk.result(static_ok, "C10.subview-pointer", f"{key}:static-offsets", ap.where(),
+                       "every non-zero static offset contributes a term for its own dimension",
+                       f"static offsets are paired wrongly or skipped (over static_offsets: {over_static}, own dimension: {same_dim}, constant of the entry: {is_const}, "
+                       f"only DYNAMIC / zero entries skipped: {allowed and not_dyn}; conditions {[ast.unparse(c_) for c_ in conds]})")
+    if static_ok is None:
+        chk.bad("C10.subview-pointer", f"{key}:static-offsets", lsite.where(),
+                "only the dynamic offset operands of the subview contribute to the pointer: a non-zero static offset (memref.subview %m[8, %j]) is never added, "
+                "the extracted pointer is that of another tile")
+    # every use of a layout dimension inside that loop is the pair's dimension
     for s in fl.sites:
-        if not s.loops or not any(isinstance(l, ast.For) and norm.contains(l.iter, T("$v.offsets")) for l in s.loops):
-            continue
-        if s.node is not s.stmt:
+        if s.node is not s.stmt or not any(l is loop for l in s.loops):
             continue
         for node in ast.walk(s.node):
             m = norm.match(T("$l.tstrides[$i]"), node) if isinstance(node, ast.Subscript) else None
             if m is None:
                 continue
             n += 1
-            cone = fl.cone(m["i"], s, inline=0)
-            dims.append(cone)
-            dyn = depends_on(cone, "$_ == DYNAMIC_INDEX", "$_ != DYNAMIC_INDEX", "$_ is DYNAMIC_INDEX", "$_ == memref.DYNAMIC_INDEX", "$_ == builtin.DYNAMIC_INDEX")
-            over_static = norm.contains(cone, T("$v.static_offsets"))
-            chk.result(dyn and over_static, "C10.subview-pointer", f"{key}:dimension-of-operand#{n}", s.where(),
-                       "the layout dimension is the position of the operand's DYNAMIC entry in static_offsets",
-                       f"the layout dimension `{ast.unparse(m['i'])}` paired with a dynamic offset operand does not come from the positions of the DYNAMIC entries of "
-                       "static_offsets: with a static offset in front of a dynamic one the operand is scaled with another dimension's step and tile size")
+            i_ = norm.primary(s.expand(m["i"]))
+            chk.result(isinstance(i_, ast.Name) and i_.id == dim_v, "C10.subview-pointer", f"{key}:own-dimension#{n}", s.where(),
+                       "the layout is read at the pair's own dimension",
+                       f"the layout is read at `{ast.unparse(m['i'])}`, not at the dimension `{dim_v}` the offset belongs to")
     if n == 0:
-        raise AnalysisError(f"{f.where}: no `<layout>.tstrides[i]` inside a loop over the subview's dynamic offsets")
+        raise AnalysisError(f"{f.where}: no `<layout>.tstrides[i]` inside the loop over the subview's offsets")
+    # what replaces the extracted pointer: the running pointer, named explicitly - or, if the rewriter is left to take the results of the last new op,
+    # the last op created on every path has to be the pointer
+    reps = [s for s in fl.calls("replace_op", "replace_matched_op") if s.reachable]
+    if not reps:
+        raise AnalysisError(f"{f.where}: the replacement of the extract_aligned_pointer op not found")
+    for k_, s in enumerate(reps, 1):
+        call = s.node
+        res = kwarg(call, "new_results", 2 if callee_name(call) == "replace_op" else 1)
+        if res is not None:
+            cone = fl.cone(res, s, inline=0)
+            okr = norm.contains(cone, T("ExtractAlignedPointerAsIndexOp.get($v.source)")) and any(isinstance(c_, ast.Call) and callee_name(c_) == "AddiOp" for c_ in ast.walk(cone))
+            chk.result(okr, "C10.subview-pointer", f"{key}:replacement#{k_}", s.where(), "the op is replaced by the running pointer (base pointer plus the terms)",
+                       f"the value that replaces the extracted pointer, `{ast.unparse(res)[:60]}`, is not the base pointer plus the per-dimension terms")
+        else:
+            # implicit: results of the last op of the list. Outside the loop the last op appended must be the base pointer
+            lst = kwarg(call, "new_ops", 1 if callee_name(call) == "replace_op" else 0)
+            lname = lst.id if isinstance(lst, ast.Name) else None
+            outside = [x for x in fl.calls("append", "extend") if x.reachable and lname is not None and ast.unparse(x.node.func.value) == lname  # type: ignore[attr-defined]
+                       and not any(l is loop for l in x.loops)]
+            last = max(outside, key=lambda x: (x.line, getattr(x.node, "col_offset", 0)), default=None)
+            okr = last is not None and last.node.args and norm.contains(fl.cone(last.node.args[0], last, inline=0), T("ExtractAlignedPointerAsIndexOp.get($v.source)"))
+            chk.result(bool(okr), "C10.subview-pointer", f"{key}:replacement#{k_}", s.where(), "without any offset term the last new op is the base pointer",
+                       "the op is replaced by the results of the LAST new op; for a subview without any offset term that is "
+                       f"`{ast.unparse(last.node.args[0])[:50] if last is not None and last.node.args else '?'}`, not the base pointer: the extracted 'pointer' becomes that constant")
     # the term: DivUIOp(offset, prod(inner bounds)) * (outermost step * bytes)
     divs = [s for s in fl.calls("DivUIOp") if s.reachable and s.loops]
     okd = False
